@@ -20,7 +20,8 @@ class Recorder(object):
     """Runs one behaviour on a real emitter and records every public call, every callback
     entry/exit.  Purely observational: nothing of the emitter's internals is read."""
 
-    def __init__(self, em, scripts, max_depth, cap=600):
+    def __init__(self, em, scripts, max_depth, cap=600, cbkind='closure'):
+        self.cbkind = cbkind
         self.em = em
         self.scripts = scripts          # {cb id: [op, ...]}
         self.max_depth = max_depth
@@ -42,8 +43,15 @@ class Recorder(object):
                 finally:
                     self.depth -= 1
                 self.log({'e': 'cbret', 'k': '', 'n': '', 'cb': 0, 'x': [], 'c': []})
-            self.cbs[c] = callback
-        return self.cbs[c]
+            if self.cbkind == 'method':
+                # a host object's method: every access builds a new bound-method object, equal to the others
+                class Host(object):
+                    def handle(self, *args, **kw):
+                        return callback(*args, **kw)
+                self.cbs[c] = Host()
+            else:
+                self.cbs[c] = callback
+        return self.cbs[c].handle if self.cbkind == 'method' else self.cbs[c]
 
     def log(self, e):
         if len(self.ev) >= self.cap:
@@ -82,7 +90,7 @@ def make_emitter(target):
 def run_case(case):
     em = make_emitter(case.get('target', 'Emitter'))
     scripts = {int(k): v for k, v in case['script'].items()}
-    r = Recorder(em, scripts, case['max_depth'])
+    r = Recorder(em, scripts, case['max_depth'], cbkind=case.get('cbkind', 'closure'))
     try:
         for o in case['hist']:
             r.do(o)
@@ -112,7 +120,8 @@ def random_case(rng, target):
     for c in rng.sample(cbs, rng.randint(0, 3)):
         script[str(c)] = [op(True) for _ in range(rng.randint(1, 2))]
     hist = [op(False) for _ in range(rng.randint(3, 40))]
-    return {'hist': hist, 'script': script, 'max_depth': rng.choice([1, 2, 2, 3]), 'target': target}
+    return {'hist': hist, 'script': script, 'max_depth': rng.choice([1, 2, 2, 3]), 'target': target,
+            'cbkind': rng.choice(['closure', 'closure', 'method'])}
 
 
 def relevant(case):
@@ -221,6 +230,9 @@ def main(tier, replay=None):
     else:
         run.exhaustive = True
     run.extra['tlc_behaviours_replayed'] = len(cases)
+    for i, c in enumerate(cases):
+        if i % 3 == 2:      # callbacks that are bound methods of host objects (equal, not identical, from access to access)
+            c['cbkind'] = 'method'
     CH = 50000
     for i in range(0, len(cases), CH):
         validate(run, cases[i:i + CH], 's2c%d' % (i // CH))
